@@ -17,7 +17,11 @@
 
 package kafka
 
-import "github.com/megaease/easegress/pkg/filters"
+import (
+	"fmt"
+
+	"github.com/megaease/easegress/pkg/filters"
+)
 
 type (
 	// Spec is spec of Kafka
@@ -39,3 +43,12 @@ type (
 		Header string `yaml:"header" jsonschema:"omitempty"`
 	}
 )
+
+// Validate validates the Dynamic: the filter cannot be initialized without
+// the name of the header to get the topic from.
+func (d *Dynamic) Validate() error {
+	if d.Header == "" {
+		return fmt.Errorf("header is required")
+	}
+	return nil
+}
